@@ -40,8 +40,14 @@ func instanceToProviderID(instance *autoscaling.Instance) string {
 	return fmt.Sprintf("aws:///%s/%s", *instance.AvailabilityZone, *instance.InstanceId)
 }
 
+// providerIDToInstanceID returns the instance id part of an aws:///zone/instance-id
+// provider id, or "" when the provider id does not have that form
 func providerIDToInstanceID(providerID string) string {
-	return strings.Split(providerID, "/")[4]
+	parts := strings.Split(providerID, "/")
+	if len(parts) < 5 {
+		return ""
+	}
+	return parts[4]
 }
 
 // CloudProvider providers an aws cloud provider implementation
@@ -137,6 +143,9 @@ func (c *CloudProvider) GetInstance(node *v1.Node) (cloudprovider.Instance, erro
 	var instance *Instance
 
 	id := providerIDToInstanceID(node.Spec.ProviderID)
+	if id == "" {
+		return instance, errors.New("Malformed provider id, expected aws:///<zone>/<instance-id>: " + node.Spec.ProviderID)
+	}
 
 	input := &ec2.DescribeInstancesInput{
 		InstanceIds: []*string{&id},
